@@ -62,6 +62,13 @@ def _tname(c):
     return type(c).__name__
 
 
+def _cond_true(fn, tag, v):
+    try:
+        return bool(fn({tag: v}))
+    except Exception:
+        return False
+
+
 def walk(c, name=''):
     """-> list of items (dicts) in wire order."""
     t = _tname(c)
@@ -132,6 +139,26 @@ def walk(c, name=''):
         if any(it['t'] not in ('field', 'pad') for it in body):
             raise Inexpressible('nested variable part inside a counted array')
         return [{'t': 'counted', 'name': name, 'cnt': cnt, 'body': body}]
+    if isinstance(c, C.StringEncoded):
+        fs = c.subcon
+        if not (str(c.encoding).lower().replace('-', '').replace('_', '') == 'utf8' and isinstance(fs, C.FixedSized)
+                and _tname(fs.subcon) == 'NullStripped' and _tname(fs.subcon.subcon) == 'GreedyBytes'
+                and getattr(fs.subcon, 'pad', b'\x00') == b'\x00'):
+            raise Inexpressible('StringEncoded(%r) over an unexpected construct' % (c.encoding,))
+        if isinstance(fs.length, int):
+            return [{'t': 'str', 'name': name, 'n': fs.length}]
+        return [{'t': 'bytes', 'name': name, 'len': ['count', _ref_name(fs.length)], 'mode': ['str']}]
+    if isinstance(c, C.IfThenElse):
+        if _tname(c.elsesubcon) != 'Pass':
+            raise Inexpressible('IfThenElse with an else branch')
+        tag = _ref_name(c.condfunc)
+        vals = [v for v in range(0, 1024) if _cond_true(c.condfunc, tag, v)]
+        if len(vals) != 1:
+            raise Inexpressible('IfThenElse condition on %s holds for %r' % (tag, vals[:5]))
+        body = walk(c.thensubcon, '')
+        if any(it['t'] not in ('field', 'pad', 'str') for it in body):
+            raise Inexpressible('variable part inside a conditional')
+        return [{'t': 'switch', 'name': name, 'tag': tag, 'cases': {str(vals[0]): {'items': body}}}]
     if isinstance(c, C.Bytes):
         if isinstance(c.length, int):
             return [{'t': 'bytes', 'name': name, 'len': ['fixed', c.length]}]
@@ -163,6 +190,8 @@ def isize(it):
         return len(it['bytes'])
     if it['t'] == 'bytes' and it['len'][0] == 'fixed':
         return it['len'][1]
+    if it['t'] == 'str':
+        return it['n']
     return 0
 
 
@@ -340,6 +369,9 @@ def describe_construct(key, cls, con, pr):
                 if r1 is None:
                     raise Inexpressible('counted bytes %s: two bytes do not parse' % it['name'])
                 lp = [p for p in r1[1] if r1[1][p] == 'b:0709']
+                if it.get('mode') == ['str']:
+                    r1 = pr.parse(bytes(b1) + b'AB')
+                    lp = [p for p in (r1[1] if r1 else {}) if r1[1][p] == 's:AB']
             elif it['len'][0] == 'greedy':
                 r1 = pr.parse(base + b'\x07\x09')
                 lp = [p for p in (r1[1] if r1 else {}) if r1[1][p] == 'b:0709']
@@ -352,6 +384,35 @@ def describe_construct(key, cls, con, pr):
             if len(lp) != 1:
                 raise Inexpressible('bytes part %s: cannot locate it in the parsed object (%r)' % (it['name'], lp))
             it['path'] = lp[0]
+    for it in items:
+        if it['t'] == 'bytes':
+            it.setdefault('mode', ['raw'])
+        if it['t'] == 'str':
+            raise Inexpressible('fixed-size string %s outside a sub-payload' % it['name'])
+        if it['t'] == 'switch':
+            tf = names.get(it['tag'])
+            if tf is None or tf['kind'] not in ('U8', 'U16', 'U32') or tf['adapter'] != ['id']:
+                raise Inexpressible('switch tag %s is not a plain unsigned field' % it['tag'])
+            if items.index(it) != len(items) - 1:
+                raise Inexpressible('conditional part %s is not last' % it['name'])
+            for tv, case in it['cases'].items():
+                csz = sum(isize(b) for b in case['items'])
+                b1 = bytearray(base); b1[tf['off']:tf['off'] + KSIZE[tf['kind']]] = int(tv).to_bytes(KSIZE[tf['kind']], 'little')
+                b1 = bytes(b1) + bytes(csz)
+                r1 = pr.parse(b1)
+                if r1 is None or r1[0] != base_len + csz:
+                    raise Inexpressible('conditional part %s: case %s does not parse as %d extra bytes' % (it['name'], tv, csz))
+                eo = base_len
+                for b in case['items']:
+                    bs = isize(b)
+                    if b['t'] == 'field':
+                        paths, ok = locate(pr, b1, eo, bs)
+                        if ok == 0 or len(paths) != 1:
+                            raise Inexpressible('conditional field %s moves %r' % (b['name'], sorted(paths)))
+                        b['paths'] = sorted(paths)
+                    eo += bs
+            absent = [p for p in r0[1] if r0[1][p] is None]
+            it['absent_path'] = absent[0] if len(absent) == 1 else None
     # fields must each move exactly one value leaf (count fields may also be kept as an attribute)
     for it in items:
         if it['t'] == 'field':
@@ -681,6 +742,139 @@ def value_dependent_unpack(cls):
     return False
 
 
+def detect_rewrite(cls, items, pr):
+    """unpack() rewrites a byte-string part depending on an earlier field (EventNotificationMessage: '/2' -> '.1' for
+    command / response events).  The rule is identified by probing and attached to the part as mode ['rewrite', ...]."""
+    fixed = sum(isize(i) for i in items)
+    found = False
+    for it in items:
+        if it['t'] != 'bytes' or it['len'][0] != 'count':
+            continue
+        cf = next(x for x in items if x['t'] == 'field' and x['name'] == it['len'][1])
+        probe = b'/2AB'
+        hits = {}
+        for tf in [x for x in items if x['t'] == 'field' and x['kind'] == 'U8' and x['adapter'] == ['id'] and not x.get('is_count')]:
+            for tv in range(0, 16):
+                b = bytearray(fixed)
+                b[tf['off']] = tv
+                b[cf['off']:cf['off'] + KSIZE[cf['kind']]] = len(probe).to_bytes(KSIZE[cf['kind']], 'little')
+                r = pr.parse(bytes(b) + probe)
+                if r is None:
+                    continue
+                out = r[1].get(it['path'])
+                if out != 'b:' + probe.hex():
+                    hits.setdefault(tf['name'], []).append((tv, bytes.fromhex(out[2:]) if isinstance(out, str) and out.startswith('b:') else None))
+        if not hits:
+            continue
+        if len(hits) != 1:
+            raise Inexpressible('byte part %s is rewritten depending on several fields %r' % (it['name'], sorted(hits)))
+        tname, lst = next(iter(hits.items()))
+        outs = {o for _, o in lst}
+        if len(outs) != 1 or None in outs or len(next(iter(outs))) != len(probe):
+            raise Inexpressible('byte part %s: rewrite not understood' % it['name'])
+        out = next(iter(outs))
+        k = max(i for i in range(len(probe)) if probe[i] != out[i]) + 1
+        src, dst, vals = probe[:k], out[:k], sorted(tv for tv, _ in lst)
+        # the rule must also explain near misses
+        tf = next(x for x in items if x['t'] == 'field' and x['name'] == tname)
+        for data in (src, src + b'x', src[:-1], dst + b'y', bytes([src[0]]) + b'\x00' * (k - 1) + b'z', b''):
+            for tv in vals[:1] + [v for v in range(16) if v not in vals][:1]:
+                b = bytearray(fixed)
+                b[tf['off']] = tv
+                b[cf['off']:cf['off'] + KSIZE[cf['kind']]] = len(data).to_bytes(KSIZE[cf['kind']], 'little')
+                r = pr.parse(bytes(b) + data)
+                want = (dst + data[k:]) if (tv in vals and data[:k] == src) else data
+                if r is None or r[1].get(it['path']) != 'b:' + want.hex():
+                    raise Inexpressible('byte part %s: the rewrite rule (%r -> %r when %s in %r) does not explain %r' % (it['name'], src, dst, tname, vals, data))
+        it['mode'] = ['rewrite', tname, vals, list(src), list(dst)]
+        found = True
+    return found
+
+
+CONTAINER_SPECS = {
+    # class name: (object attribute, registry module, generator attr, case map attr, sub-map attr, header construct attr, skip (field, mask), opaque)
+    'SetConfigMessage': ('.config_object', 'configuration', '_conf_gen', 'CONFIG_MAP', 'INTERFACE_CONFIG_MAP', '_InterfaceConfigSubmessageConstruct', ('flags', 'FLAG_REVERT_TO_DEFAULT'), False),
+    'ConfigResponseMessage': ('.config_object', 'configuration', '_conf_gen', 'CONFIG_MAP', 'INTERFACE_CONFIG_MAP', '_InterfaceConfigSubmessageConstruct', None, True),
+    'FaultControlMessage': ('.payload', 'fault_control', '_class_gen', 'TYPE_MAP', None, None, None, False),
+}
+HDR_PATHS = {'interface.type': '.interface.InterfaceID.type', 'interface.index': '.interface.InterfaceID.index'}
+
+
+def _case_items(adapter, obj_path):
+    if not isinstance(adapter, CU.NamedTupleAdapter) or not isinstance(adapter.subcon, C.Struct):
+        raise Inexpressible('registered sub-payload is not a NamedTupleAdapter over a Struct')
+    its = walk(adapter.subcon, '')
+    named = [i for i in its if i['t'] in ('field', 'str')]
+    flds = list(adapter.tuple_cls._fields)
+    if any(i['t'] not in ('field', 'pad', 'str') for i in its) or len(named) != len(flds):
+        raise Inexpressible('sub-payload %s: %d wire fields for %d tuple fields' % (adapter.tuple_cls.__name__, len(named), len(flds)))
+    for i, f in zip(named, flds):
+        i['paths'] = ['%s.%s.%s' % (obj_path, adapter.tuple_cls.__name__, f)]
+    return {'name': adapter.tuple_cls.__name__, 'items': its}
+
+
+def describe_container(key, cls, con, pr):
+    import sys as _sys
+    obj_path, modname, genname, mapname, submapname, hdrname, skip, opaque = CONTAINER_SPECS[cls.__name__]
+    mod = _sys.modules.get('fusion_engine_client.messages.' + modname)
+    gen = getattr(mod, genname, None)
+    if gen is None or not hasattr(gen, mapname):
+        raise Inexpressible('registry %s.%s not found' % (genname, mapname))
+    items = walk(con)
+    if not items or items[-1]['t'] != 'bytes' or items[-1]['len'][0] != 'count':
+        raise Inexpressible('container layout does not end in a length-prefixed byte string')
+    data = items.pop()
+    base = bytes(sum(isize(i) for i in items))
+    r0 = pr.parse(base)
+    if r0 is None:
+        raise Inexpressible('the all-zero container does not parse')
+    off, names = 0, {}
+    for it in items:
+        if it['t'] == 'field':
+            it['off'] = off
+            names[it['name']] = it
+            pth = '.' + it['name']
+            it['paths'] = [pth] if pth in r0[1] else []
+            it['len_paths'] = []
+            it['nopath'] = not it['paths']
+        elif it['t'] != 'pad':
+            raise Inexpressible('container header contains a %s part' % it['t'])
+        off += isize(it)
+    lenf = names.get(data['len'][1])
+    if lenf is None or lenf['kind'] not in ('U8', 'U16', 'U32') or lenf['adapter'] != ['id']:
+        raise Inexpressible('container length field not understood')
+    lenf['adapter'] = ['count', data['name']]; lenf['is_count'] = True; lenf['nopath'] = True; lenf['paths'] = []
+    tagf = next((i for i in items if i['t'] == 'field' and i['name'].endswith('_type') and i['name'] in ('config_type', 'fault_type')), None)
+    if tagf is None or tagf['adapter'] != ['id']:
+        raise Inexpressible('container tag field not found')
+    tagged = {'t': 'tagged', 'name': data['name'], 'tag': tagf['name'], 'len': lenf['name'], 'opaque': opaque, 'obj_path': obj_path,
+              'cases': {str(int(k)): _case_items(a, obj_path) for k, a in sorted(getattr(gen, mapname).items(), key=lambda kv: int(kv[0]))},
+              'skip': None, 'sub': None}
+    if skip is not None:
+        ff = names.get(skip[0])
+        if ff is None or ff['adapter'] != ['id']:
+            raise Inexpressible('skip flag field not found')
+        tagged['skip'] = [skip[0], int(getattr(cls, skip[1]))]
+    if submapname is not None:
+        hdr = getattr(mod, hdrname, None)
+        ct = getattr(mod, 'ConfigType', None)
+        if hdr is None or ct is None:
+            raise Inexpressible('interface header construct not found')
+        hitems = walk(hdr, '')
+        for h in hitems:
+            if h['t'] == 'field':
+                h['paths'] = [HDR_PATHS[h['name']]] if h['name'] in HDR_PATHS else []
+                h['nopath'] = not h['paths']
+            elif h['t'] != 'pad':
+                raise Inexpressible('interface header contains a %s part' % h['t'])
+        sid = next((h for h in hitems if h['t'] == 'field' and h['name'] == 'subtype'), None)
+        if sid is None or sid['adapter'] != ['id']:
+            raise Inexpressible('interface header has no plain subtype field')
+        tagged['sub'] = {'tag_value': int(ct.INTERFACE_CONFIG), 'hdr': hitems, 'sid': 'subtype',
+                         'cases': {str(int(k)): _case_items(a, obj_path) for k, a in sorted(getattr(gen, submapname).items(), key=lambda kv: int(kv[0]))}}
+    return items + [tagged]
+
+
 def find_construct(cls):
     if not uses_construct(cls):
         return None
@@ -704,10 +898,16 @@ def describe(key, cls):
     greedy = n == z + 3
     pr = Prober(cls, greedy)
     con = find_construct(cls)
-    if con is not None and value_dependent_unpack(cls):
-        raise Inexpressible('unpack() post-processes the parsed fields under a value-dependent condition')
-    if con is not None:
+    if cls.__name__ in CONTAINER_SPECS:
+        if con is None:
+            raise Inexpressible('container without a single Struct construct')
+        items = describe_container(key, cls, con, pr)
+        src = 'construct+registry'
+        fmts = []
+    elif con is not None:
         items = describe_construct(key, cls, con, pr)
+        if value_dependent_unpack(cls) and not detect_rewrite(cls, items, pr):
+            raise Inexpressible('unpack() post-processes the parsed fields under a value-dependent condition that is not a prefix rewrite')
         src = 'construct'
         fmts = []
     else:
